@@ -5,6 +5,7 @@
 package vsync
 
 import (
+	"errors"
 	"sync"
 	"unsafe"
 
@@ -28,6 +29,10 @@ func (selfDeadlock) Error() string {
 // ErrSelfDeadlock is the panic value raised in SeqMode.
 var ErrSelfDeadlock error = selfDeadlock{}
 
+// ErrUnlockUnlocked is the panic value raised where the runtime would abort
+// the process with "fatal error: sync: unlock of unlocked mutex".
+var ErrUnlockUnlocked = errors.New("sync: unlock of unlocked mutex (a fatal error that aborts the process)")
+
 type Mutex struct {
 	mu sync.Mutex
 	st vsched.MutexState
@@ -48,6 +53,11 @@ func (m *Mutex) Lock() {
 
 //go:norace
 func (m *Mutex) Unlock() {
+	if !m.st.Held {
+		// the runtime would abort the whole process ("fatal error: sync:
+		// unlock of unlocked mutex"); a panic lets the harness report it
+		panic(ErrUnlockUnlocked)
+	}
 	m.st.Held = false
 	m.mu.Unlock()
 }
@@ -81,7 +91,13 @@ func (m *RWMutex) Lock() {
 }
 
 //go:norace
-func (m *RWMutex) Unlock() { m.st.Held = false; m.mu.Unlock() }
+func (m *RWMutex) Unlock() {
+	if !m.st.Held {
+		panic(ErrUnlockUnlocked)
+	}
+	m.st.Held = false
+	m.mu.Unlock()
+}
 
 //go:norace
 func (m *RWMutex) RLock() {
@@ -95,7 +111,13 @@ func (m *RWMutex) RLock() {
 }
 
 //go:norace
-func (m *RWMutex) RUnlock() { m.st.Readers--; m.mu.RUnlock() }
+func (m *RWMutex) RUnlock() {
+	if m.st.Readers <= 0 && (vsched.Active() || SeqMode) { // the reader count is exact only there
+		panic(ErrUnlockUnlocked)
+	}
+	m.st.Readers--
+	m.mu.RUnlock()
+}
 
 //go:norace
 func (m *RWMutex) RLocker() Locker { return m.mu.RLocker() }
